@@ -1149,10 +1149,6 @@ impl<'a, R: CharRead> Lexer<'a, R> {
                     };
                 }
 
-                if c == '\u{0}' {
-                    return Err(ParserError::unexpected_eof());
-                }
-
                 if single_quote_char!(c) || back_quote_char!(c) {
                     return match self.name_token(c) {
                         Ok(token) => Ok(token),
